@@ -154,12 +154,12 @@ pub fn spec(id: &str) -> Option<PropSpec> {
             vec!["cur-blst"],
         )),
         "C13" => Some(base(
-            vec![cs(&CRYPT, "tl-beacon", 1000, 15000, false), cs(&CRYPT, "tl-beacon-big", BIG_LENS, BIG_LENS * 6, true), cs(&CRYPT, "tl-tamper", 2400, 36000, false), cs(&CRYPT, "tl-bitflip-all", 12, 54, false), cs(&CRYPT, "tl-beacon-huge", 4, 10, true), cs(&CONC, "conc-tl", 100, 1000, false)],
+            vec![cs(&CRYPT, "tl-beacon", 1000, 15000, false), cs(&CRYPT, "tl-beacon-big", BIG_LENS, BIG_LENS * 6, true), cs(&CRYPT, "tl-tamper", 2400, 36000, false), cs(&CRYPT, "tl-bitflip-all", 12, 54, false), cs(&CRYPT, "tl-beacon-huge", 4, 10, true), cs(&CONC, "conc-tl", 100, 1000, false), cs(&CONC, "conc-tl-tamper", 60, 600, false)],
             "cases = (group, scheme, beacon kind {whole key, t-of-n recombined over a lossy/duplicating transport}, message length (class `tl-beacon-big`: all 182 lengths whose framed size is within 1 of 2^16..2^25 or of 168*2^j / 136*2^j, j=7..14), identifier kind, fault-script length | perturbation kind distinguishing header, authenticated prefix of w and padding, incl. in-place rewrites of the length prefix to values around 2^7..2^128 | every single bit in `tl-bitflip-all`); non-trivial = recombined beacons, runs with faults, all altered ciphertexts",
             vec!["cur-blst"],
         )),
         "C14" => Some(base(
-            vec![cs(&CRYPT, "eg-tally", 1500, 20000, false), cs(&CRYPT, "eg-extremes", 104, 208, true), cs(&CRYPT, "eg-proof-tamper", 2400, 32000, false), cs(&CRYPT, "eg-transcripts", 16, 64, true), cs(&CONC, "conc-eg", 100, 1000, false)],
+            vec![cs(&CRYPT, "eg-tally", 1500, 20000, false), cs(&CRYPT, "eg-extremes", 104, 208, true), cs(&CRYPT, "eg-proof-tamper", 2400, 32000, false), cs(&CRYPT, "eg-transcripts", 16, 64, true), cs(&CONC, "conc-eg", 100, 1000, false), cs(&CONC, "conc-eg-tamper", 100, 1000, false)],
             "cases = (group, number of voters, which ballots arrived in which order under loss/duplication/delay, fault-script length) with conservation oracle, threshold share subset; proof perturbation kind over (c1, c2, message_proof, blinder_proof, challenge, pk); non-trivial = sums of >1 ciphertext, runs with faults, all altered proofs",
             vec!["cur-blst"],
         )),
